@@ -10,7 +10,7 @@
 (*             register state after every call and replayed through the    *)
 (*             public setters, VerifOptions() compared after every call.   *)
 (***************************************************************************)
-EXTENDS MxjOptions, Json
+EXTENDS MxjOptions, Json, SequencesExt
 CONSTANTS ActiveFns,   \* the setter names explored (others stay at their default)
           MaxHist, DoEmit
 VARIABLES opt, hist
@@ -32,7 +32,9 @@ InvRestore == Restorable(opt)
 Full(o) == [o |-> o, lenAttrPrefix |-> LenAttrPrefix(o), trimRunes |-> TrimRunes(o), keys |-> SpecialKeys(o)]
 Emit == (DoEmit /\ Len(hist) = MaxHist) =>
           PrintT(ToJson([f |-> "opts", hist |-> [i \in 1..Len(hist) |-> [fn |-> hist[i].c.fn, arg |-> hist[i].c.arg, st |-> Full(hist[i].o)]],
-                         restore |-> RestoreCalls(Len(hist) % 2 = 0), init |-> Full(InitOpt)]))
+                         restore |-> RestoreCalls(Len(hist) % 2 = 0), init |-> Full(InitOpt),
+                         proj |-> [op \in DOMAIN Relevant |-> Project(opt, Relevant[op])],
+                         rel |-> [op \in DOMAIN Relevant |-> SetToSeq(Relevant[op])]]))
 AllFns == ToggleNames \cup {"DisableTrimWhiteSpace", "PrependAttrWithHyphen", "SetAttrPrefix", "XMLEscapeChars", "XMLEscapeCharsDecoder",
            "XmlGoEmptyElemSyntax", "XmlDefaultEmptyElemSyntax", "SetFieldSeparator", "SetArraySize", "SetGlobalKeyMapPrefix",
            "SetCheckTagToSkipFunc", "JsonUseNumber"}
